@@ -37,7 +37,7 @@ def ser_expr(e, o):
     elif t == "F":
         o += ["F", e[1], e[2]]
     elif t == "U":
-        o += ["U", str(len(e[1]))] + list(e[1]) + ["1" if e[2] else "0"]
+        o += ["U", str(len(e[1]))] + list(e[1]) + [str(int(e[2]))]
         ser_stmts(e[3], o)
     elif t == "N":
         o += ["N", e[1]]
@@ -100,6 +100,10 @@ def ser_prog(decls):
 
 # ------------------------------------------------------------------ rendering to Go
 
+# result lists of function literals by arity (unnamed results)
+RESULTS = ["", " int", " (int, error)", " (int, string, error)"]
+
+
 def gostr(s):
     return '"' + s.replace("\\", "\\\\").replace('"', '\\"').replace("\n", "\\n") + '"'
 
@@ -130,7 +134,7 @@ class R:
             return "%s.%s" % (e[1], e[2])
         if t == "U":
             ps, res, body = e[1], e[2], e[3]
-            sig = "func(%s)%s" % (", ".join(ps) + (" int" if ps else ""), " int" if res else "")
+            sig = "func(%s)%s" % (", ".join(ps) + (" int" if ps else ""), RESULTS[int(res)])
             return sig + " " + self.block(body)
         if t == "N":
             return "%s{%s}" % (e[1], self.expr(e[2]))
@@ -158,7 +162,7 @@ class R:
                 r += " else " + self.block(s[3])
             return r
         if t == "R":
-            return "return" + (" " + self.expr(s[1][0]) if s[1] else "")
+            return "return" + (" " + ", ".join(self.expr(x) for x in s[1]) if s[1] else "")
         if t == "B":
             return self.block(s[1])
         raise ValueError(t)
@@ -231,6 +235,10 @@ HELPERS = {
     "apply2": ("fn", "apply2", ["f", "a", "b"], True, [("R", [call("f", V("a"), V("b"))])], "(f func(int, int) int, a, b int) int"),
     "each": ("fn", "each", ["f"], False, [("E", False, call("f", I(1))), ("E", False, call("f", I(2)))], "(f func(int))"),
     "twice": ("fn", "twice", ["f"], False, [("E", False, call("f")), ("E", False, call("f"))], "(f func())"),
+    "take2": ("fn", "take2", ["f", "v"], True, [("R", [V("v")])], "(f func(int) (int, error), v int) int"),
+    "take3": ("fn", "take3", ["f", "v"], True, [("R", [V("v")])], "(f func(int) (int, string, error), v int) int"),
+    "two": ("fn", "two", ["k"], True, [("R", [V("k"), V("nil")])], "(k int) (int, error)"),
+    "three": ("fn", "three", ["k"], True, [("R", [V("k"), S("s"), V("nil")])], "(k int) (int, string, error)"),
     "sinks": ("fn", "sinks", ["s"], False, [("E", False, sel("fmt", "Println", S("sink"), V("s")))], "(s string)"),
 }
 
@@ -398,7 +406,7 @@ class Gen:
             self.need.add("P")
             self.scopes[-1]["fmt"] = "P"
             return [("W", "fmt", ("N", "P", self.int_expr(d))), ("E", False, sel("fmt", "Println", self.int_expr(d)))]
-        r = self.rng.below(14)
+        r = self.rng.below(15)
         if r < 6 and self.shadowed():
             self.note("shadow:method-call-on-fmt-var")
             return ("E", False, sel("fmt", "Println", self.int_expr(d)))
@@ -448,6 +456,29 @@ class Gen:
             self.note("call:twice-funclit")
             self.need.add("twice")
             return ("E", False, call("twice", self.funclit(0, False, d)))
+        if r == 13:
+            # function-literal arguments with 2 / 3 results x body shapes
+            ar = 2 + self.rng.below(2)
+            shape_ = self.rng.below(3)
+            p = self.pick(self.VARS)
+            self.scopes.append({p: "int"})
+            tail = [V("nil")] if ar == 2 else [S("s"), V("nil")]
+            if shape_ == 0:
+                body = [("R", [self.int_expr(d + 1)] + tail)]                       # single return of n expressions
+                self.note("funclit:%d-results:return-n" % ar)
+            elif shape_ == 1:
+                fw = "two" if ar == 2 else "three"
+                self.need.add(fw)
+                body = [("R", [call(fw, self.int_expr(d + 1))])]                    # forwarding a multi-value call
+                self.note("funclit:%d-results:return-forward" % ar)
+            else:
+                pr = ("E", False, sel("fmt", "Println", self.int_expr(d + 1))) if self.shadowed() else println(S("in"), V(p))
+                body = [pr, ("R", [V(p)] + tail)]                                   # several statements
+                self.note("funclit:%d-results:block" % ar)
+            self.scopes.pop()
+            tk = "take%d" % ar
+            self.need.add(tk)
+            return ("E", False, call(tk, ("U", [p], ar, body), self.int_expr(d)))
         if r == 10:
             ts = self.vars_of("T")
             if ts:
@@ -601,6 +632,18 @@ def deterministic():
     P.append(("det-var-rhs-import", [fmt, ("fn", "show", ["s"], False, [println(V("s"))], "(s string)"),
                                       ("fn", "main", [], False, [println(S("start")), ("W", "fmt", sel("fmt", "Sprint", I(5))),
                                                                  ("E", False, call("show", V("fmt")))], None)]))
+    # function-literal arguments of every result arity x body shape (unnamed results)
+    def lits(name, helpers, stmts_):
+        P.append((name, [fmt] + [HELPERS[h] for h in helpers] + [("fn", "main", [], False, [println(S("start"))] + stmts_, None)]))
+    lits("det-lit-2-return-n", ["take2"], [println(call("take2", ("U", ["x"], 2, [("R", [("A", V("x"), I(1)), V("nil")])]), I(4)))])
+    lits("det-lit-2-return-forward", ["take2", "two"], [println(call("take2", ("U", ["x"], 2, [("R", [call("two", V("x"))])]), I(4)))])
+    lits("det-lit-2-block", ["take2"], [println(call("take2", ("U", ["x"], 2, [println(V("x")), ("R", [V("x"), V("nil")])]), I(4)))])
+    lits("det-lit-3-return-n", ["take3"], [println(call("take3", ("U", ["x"], 3, [("R", [V("x"), S("s"), V("nil")])]), I(5)))])
+    lits("det-lit-3-return-forward", ["take3", "three"], [println(call("take3", ("U", ["x"], 3, [("R", [call("three", V("x"))])]), I(5)))])
+    lits("det-lit-3-block", ["take3"], [println(call("take3", ("U", ["x"], 3, [println(V("x")), ("R", [V("x"), S("s"), V("nil")])]), I(5)))])
+    lits("det-lit-1-return-1", ["apply"], [println(call("apply", ("U", ["x"], 1, [("R", [("A", V("x"), I(1))])]), I(6)))])
+    lits("det-lit-1-block", ["apply"], [println(call("apply", ("U", ["x"], 1, [println(V("x")), ("R", [V("x")])]), I(6)))])
+    lits("det-lit-0-block", ["each"], [("E", False, call("each", ("U", ["x"], 0, [println(V("x"))])))])
     # control (b2092a4): a function literal whose body is a bare `return` becomes a block lambda
     P.append(("det-bare-return-lit", [fmt, HELPERS["twice"], ("fn", "main", [], False, [
         println(S("a")), ("E", False, call("twice", ("U", [], False, [("R", [])])))], None)]))
@@ -714,6 +757,33 @@ func main() {
 			fmt.Println("two")
 		}
 	}
+}
+"""),
+    ("raw-lit-named-results", """package main
+
+import (
+	"fmt"
+	"strconv"
+)
+
+func parse(xs []string, f func(string) (int, error)) int {
+	t := 0
+	for _, x := range xs {
+		if n, err := f(x); err == nil {
+			t += n
+		}
+	}
+	return t
+}
+
+func main() {
+	fmt.Println(parse([]string{"1", "x", "3"}, func(s string) (n int, err error) { return strconv.Atoi(s) }))
+	fmt.Println(parse([]string{"4"}, func(s string) (int, error) { return strconv.Atoi(s) }))
+	fmt.Println(parse([]string{"5"}, func(s string) (n int, err error) {
+		n, err = strconv.Atoi(s)
+		return
+	}))
+	fmt.Println(parse([]string{"6"}, func(s string) (int, error) { return len(s), nil }))
 }
 """),
     ("raw-for-post-incdec", """package main
